@@ -1,7 +1,9 @@
 package nc
 
 import (
+	"fmt"
 	"go/token"
+	"strings"
 
 	"golang.org/x/tools/go/ssa"
 )
@@ -214,4 +216,600 @@ func genomeContentFact(what string) bool {
 		return true
 	}
 	return false
+}
+
+// ---- C10.7: the clones reserved for a champion fit into its species' quota ----
+//
+// Species.reproduce produces the exact copy of a super-champion only as the
+// LAST of its superChampOffspring clones (all earlier ones are mutated, C10.2)
+// and produces offspring only while count < ExpectedOffspring; while clones are
+// pending the champion-clone branch is not taken (C10.1 "after-super"). So if a
+// champion enters reproduce with superChampOffspring > ExpectedOffspring, the
+// loop ends before the exact copy is made and no unmodified copy of the
+// champion exists in the next generation. The necessary condition is the
+// invariant
+//
+//	I:  species.Organisms[0].superChampOffspring <= species.ExpectedOffspring
+//
+// at the call of reproduce. c10ReserveWithinQuota proves the inductive step for
+// every piece of code (outside reproduce, which only decrements) that assigns
+// superChampOffspring: on every acyclic path through one loop iteration /
+// through the loop-free part of the function that contains such a store, the
+// values the path leaves in the two fields of the SAME species satisfy
+//
+//	ExpectedOffspring_after - superChampOffspring_after >= 0
+//
+// as a consequence of I before the path and ExpectedOffspring >= 0 (values are
+// integer-linear expressions over the path, affine.go; no solver: the
+// difference must reduce to  a*EO_before + b*SCO_before + c  with c >= 0,
+// a >= 0 and a+b >= 0). Equal values assigned to both (delta coding), `sco = k;
+// eo += k` and `sco += k; eo += k` (stolen babies) are the instances found in
+// the pinned tree. The species is identified by the origin term of the store
+// address, so aliases (`curr := sorted[0]`), helper extraction and statement
+// order do not matter.
+func (r *Run) c10ReserveWithinQuota(rep *ssa.Function) {
+	p := r.P
+	eo := p.Field(PkgG, "Species", "ExpectedOffspring")
+	sco := p.Field(PkgG, "Organism", "superChampOffspring")
+	orgsF := p.Field(PkgG, "Species", "Organisms")
+	first := p.FuncOpt(PkgG, "Species.firstOrganism")
+
+	// speciesOf: the species whose champion (Organisms[0]) the organism term denotes.
+	speciesOf := func(org *Term) (*Term, bool) {
+		if org == nil {
+			return nil, false
+		}
+		if org.Op == "elem" && len(org.Args) > 1 && org.Args[1].Op == "const" && org.Args[1].Name == "0" &&
+			org.Args[0].Op == "field" && org.Args[0].Obj == orgsF && len(org.Args[0].Args) == 1 {
+			return org.Args[0].Args[0], true
+		}
+		if org.Op == "call" && first != nil && org.Obj == first.Object() && len(org.Args) == 1 {
+			return org.Args[0], true
+		}
+		return nil, false
+	}
+
+	nStores, nPaths, nLower := 0, 0, 0
+	for _, fn := range p.SrcFuncs() {
+		if fn == rep {
+			continue // the decrement per super-champion offspring: C10.2
+		}
+		stores := FieldStores(fn, sco)
+		if len(stores) == 0 {
+			continue
+		}
+		r.Fn(FuncName(fn))
+		tm := NewTermer(fn)
+		loops := Loops(fn)
+		fname := fn.Name()
+		if recv := fn.Signature.Recv(); recv != nil {
+			t := recv.Type().String()
+			fname = t[strings.LastIndex(t, ".")+1:] + "." + fname
+		}
+
+		type verdict struct {
+			ok      bool
+			covered bool
+			why     string
+			pos     token.Pos
+			path    []string
+		}
+		res := map[string]*verdict{}
+		var order []string
+		keyOfStore := map[*ssa.Store]string{}
+		for _, st := range stores {
+			nStores++
+			at := tm.Of(st.Addr)
+			var sp *Term
+			ok := false
+			if at.Op == "field" && len(at.Args) == 1 {
+				sp, ok = speciesOf(at.Args[0])
+			}
+			if !ok {
+				if IsConstIntValue(st.Val, 0) {
+					r.OK("reserve.cleared:"+fname, p.Pos(st.Pos()), "superChampOffspring of "+at.String()+" is reset to zero")
+					continue
+				}
+				r.Bad("reserve.owner:"+fname, p.Pos(st.Pos()), "superChampOffspring is assigned on "+at.String()+", which is not Organisms[0] of a species: the reservation cannot be related to a species' quota (reproduce hands the reserved clones of Organisms[0] out of that species' ExpectedOffspring)")
+				continue
+			}
+			k := sp.String()
+			keyOfStore[st] = k
+			if res[k] == nil {
+				res[k] = &verdict{ok: true, pos: st.Pos()}
+				order = append(order, k)
+			}
+		}
+
+		// analyse one path; inRegion tells which blocks belong to the region the path is judged on
+		analyse := func(ip *IterPath, inRegion func(*ssa.BasicBlock) bool) {
+			ps := newPathState(tm, ip)
+			n := len(ip.Blocks)
+			if ip.End != "return" && n > 0 {
+				n-- // the last block is the header revisit / exit target / cycle closing block
+			}
+			type state struct {
+				sco     Lin
+				scoAddr string
+				eo      *Lin
+				st      *ssa.Store
+			}
+			seen := map[string]*state{}
+			eoAfter := map[string]Lin{}
+			for _, b := range ip.Blocks[:n] {
+				if !inRegion(b) {
+					continue
+				}
+				for _, in := range b.Instrs {
+					if st, ok := in.(*ssa.Store); ok {
+						switch StoredField(st) {
+						case sco:
+							if k, ok := keyOfStore[st]; ok {
+								seen[k] = &state{sco: ps.Lin(st.Val), scoAddr: tm.Of(st.Addr).String(), st: st}
+							}
+						case eo:
+							if at := tm.Of(st.Addr); at.Op == "field" && len(at.Args) == 1 {
+								eoAfter[at.Args[0].String()] = ps.Lin(st.Val)
+							}
+						}
+					}
+					ps.observe(in)
+				}
+			}
+			if len(seen) == 0 {
+				return
+			}
+			nPaths++
+			for k, s := range seen {
+				v := res[k]
+				v.covered = true
+				eoAtom := k + "." + eo.Name() + "@0"
+				scoAtom := s.scoAddr + "@0"
+				after, written := eoAfter[k]
+				if !written {
+					after = linAtom(eoAtom)
+				}
+				diff := after.Add(s.sco, -1)
+				a, b := diff.T[eoAtom], diff.T[scoAtom]
+				good := diff.C >= 0 && a >= 0 && a+b >= 0
+				for t := range diff.T {
+					if t != eoAtom && t != scoAtom {
+						good = false
+					}
+				}
+				if !good && v.ok {
+					v.ok = false
+					v.pos = s.st.Pos()
+					q := "keeps its quota " + after.String()
+					if written {
+						q = "gets the quota " + after.String()
+					}
+					v.why = fmt.Sprintf("the champion of %s reserves %s clones while the species %s (quota - reserved = %s, not provably >= 0)", k, s.sco.String(), q, diff.String())
+					v.path = ip.Describe(p)
+				}
+			}
+		}
+
+		// quotas lowered in this function must stay non-negative (premise of the pairing argument: EO_before >= 0)
+		nonNegOK, nonNegWhy, nonNegN := true, "", 0
+		nonNegPos := fn.Pos()
+		var nonNegPath []string
+		analyseNonNeg := func(ip *IterPath, inRegion func(*ssa.BasicBlock) bool) {
+			ps := newPathState(tm, ip)
+			n := len(ip.Blocks)
+			if ip.End != "return" && n > 0 {
+				n--
+			}
+			for bi, b := range ip.Blocks[:n] {
+				if !inRegion(b) {
+					continue
+				}
+				for _, in := range b.Instrs {
+					if st, ok := in.(*ssa.Store); ok && StoredField(st) == eo {
+						before := ps.currentAtom(st.Addr)
+						v := ps.Lin(st.Val)
+						if v.T[oldKey(before)] == 1 {
+							d := v.Add(before, -1)
+							lowering := d.C < 0 || hasNegative(d)
+							if lowering {
+								nonNegN++
+								proven := false
+								for _, g := range ip.Conds {
+									// only tests decided before the store (their loads carry the versions of that moment)
+									at := -1
+									for j, pb := range ip.Blocks[:bi] {
+										if pb == g.At {
+											at = j
+										}
+									}
+									if at < 0 {
+										continue
+									}
+									x, y, op, isF := CmpFact(g.Cond, g.True)
+									if !isF {
+										continue
+									}
+									if L, isI := ineqAsLin(op, ps.Lin(x), ps.Lin(y), true); isI {
+										// v >= L >= 0 ?
+										if rest := v.Add(L, -1); len(rest.T) == 0 && rest.C >= 0 {
+											proven = true
+										}
+									}
+								}
+								if !proven && nonNegOK {
+									nonNegOK, nonNegPos, nonNegPath = false, st.Pos(), ip.Describe(p)
+									nonNegWhy = fmt.Sprintf("the quota of %s is lowered to %s on a path without a test that implies this is >= 0", tm.Of(st.Addr).Args[0].String(), v.String())
+								}
+							}
+						}
+					}
+					ps.observe(in)
+				}
+			}
+		}
+		relevant := append([]*ssa.Store{}, stores...)
+		relevant = append(relevant, FieldStores(fn, eo)...)
+		isRelevant := func(st *ssa.Store) bool {
+			if StoredField(st) == eo {
+				return true
+			}
+			_, ok := keyOfStore[st]
+			return ok
+		}
+
+		// (1) stores inside loops: the paths of one iteration of the innermost loop
+		doneLoop := map[*Loop]bool{}
+		for _, st := range relevant {
+			if !isRelevant(st) {
+				continue
+			}
+			l := InnermostLoop(loops, st.Block())
+			if l == nil || doneLoop[l] {
+				continue
+			}
+			doneLoop[l] = true
+			paths, complete := EnumIterPaths(fn, l, 4000)
+			if !complete {
+				r.Undecided("reserve.paths:"+fname, p.Pos(st.Pos()), "too many paths through one iteration of the loop that assigns superChampOffspring")
+				continue
+			}
+			r.PathsExplored += len(paths)
+			for _, ip := range paths {
+				analyse(ip, func(b *ssa.BasicBlock) bool { return l.Blocks[b] })
+				analyseNonNeg(ip, func(b *ssa.BasicBlock) bool { return l.Blocks[b] })
+			}
+		}
+		// (2) stores outside loops: the acyclic paths through the loop-free stretch of code around the store,
+		// starting at the topmost dominator that is reached from the store's block upwards without entering a
+		// loop (the function entry, or the block a preceding loop exits to), judged on the loop-free blocks only.
+		// What a loop did before is covered by I, which every iteration preserves for the species it reserves for.
+		doneStart := map[*ssa.BasicBlock]bool{}
+		for _, st := range relevant {
+			if !isRelevant(st) || InnermostLoop(loops, st.Block()) != nil {
+				continue
+			}
+			start := st.Block()
+			for d := start.Idom(); d != nil && InnermostLoop(loops, d) == nil; d = d.Idom() {
+				start = d
+			}
+			if doneStart[start] {
+				continue
+			}
+			doneStart[start] = true
+			paths, complete := EnumRegionPaths(fn, start, func(*ssa.BasicBlock) bool { return false }, 6000)
+			if !complete {
+				r.Undecided("reserve.paths:"+fname, p.Pos(st.Pos()), "too many paths through the code that assigns superChampOffspring")
+			}
+			r.PathsExplored += len(paths)
+			for _, ip := range paths {
+				analyse(ip, func(b *ssa.BasicBlock) bool { return InnermostLoop(loops, b) == nil })
+				analyseNonNeg(ip, func(b *ssa.BasicBlock) bool { return InnermostLoop(loops, b) == nil })
+			}
+		}
+		nLower += nonNegN
+		if nonNegN > 0 {
+			r.Check(nonNegOK, "quota-nonnegative:"+fname, p.Pos(nonNegPos), "every update that lowers a species' quota is guarded by a test that keeps it >= 0",
+				nonNegWhy+": a negative quota that later receives reserved clones (quota += k, reserved = k) is smaller than the reservation, so the loop of reproduce ends before the champion's last, unmodified clone", nonNegPath...)
+		}
+		for _, k := range order {
+			v := res[k]
+			c := "reserve-within-quota:" + fname + ":" + k
+			if !v.covered {
+				r.Undecided(c, p.Pos(v.pos), "no enumerated path passes the assignment of superChampOffspring")
+				continue
+			}
+			r.Check(v.ok, c, p.Pos(v.pos), "on every path the clones reserved for the champion of "+k+" do not exceed the quota the path leaves to that species",
+				v.why+": reproduce stops after ExpectedOffspring offspring, the exact copy is the LAST reserved clone and the champion-clone branch is closed while clones are pending - no unmodified copy of this champion reaches the next generation", v.path...)
+		}
+	}
+	r.Floor("assignments of superChampOffspring outside reproduce", nStores, 3)
+	r.Floor("quota-lowering updates judged for non-negativity", nLower, 1)
+	r.Floor("paths through those assignments", nPaths, 4)
+}
+
+// ---- comparison facts, independent of spelling ----
+
+// c10Fact is a branch outcome stated as a comparison that HOLDS, `X Op Y`
+// (canon.go CmpFact: negations removed, a false outcome turned into the
+// complementary operator, a constant moved to the right), with the origin
+// terms of both operands.
+type c10Fact struct {
+	X, Y   ssa.Value
+	TX, TY *Term
+	Op     token.Token
+}
+
+// c10FactOf states guard g as a c10Fact. When only the right operand satisfies
+// left (and the right operand is not needed on the right as a constant), the
+// operands are exchanged and the operator mirrored, so that `count < s.EO`,
+// `s.EO > count` and `!(count >= s.EO)` all read `s.EO > count`.
+func c10FactOf(tm *Termer, g Guard, left func(*Term) bool) (c10Fact, bool) {
+	x, y, op, ok := CmpFact(g.Cond, g.True)
+	if !ok {
+		return c10Fact{}, false
+	}
+	f := c10Fact{X: x, Y: y, TX: tm.Of(x), TY: tm.Of(y), Op: op}
+	if left != nil && !left(f.TX) && left(f.TY) {
+		f.X, f.Y, f.TX, f.TY, f.Op = f.Y, f.X, f.TY, f.TX, mirrorCmp(f.Op)
+	}
+	return f, true
+}
+
+// constBounds: what the fact `X Op k` (k an integer constant) says about the integer X.
+func (f c10Fact) constBounds() (lo int64, hasLo bool, hi int64, hasHi bool) {
+	k, isK := constInt(f.Y)
+	if !isK {
+		return
+	}
+	switch f.Op {
+	case token.GTR:
+		return k + 1, true, 0, false
+	case token.GEQ:
+		return k, true, 0, false
+	case token.LSS:
+		return 0, false, k - 1, true
+	case token.LEQ:
+		return 0, false, k, true
+	case token.EQL:
+		return k, true, k, true
+	}
+	return
+}
+
+func (f c10Fact) String() string { return "(" + f.TX.String() + f.Op.String() + f.TY.String() + ")" }
+
+// ---- C10.8: the offspring loop gives the champion its turn and delivers the copy ----
+//
+// C10.1/C10.2 place the unmodified copy in one iteration of the offspring loop
+// (the first one without pending super-champion clones, or the iteration that
+// consumes the LAST reserved clone). For that copy to be in the next
+// generation the following facts about the loop are necessary:
+//
+//	(a) the loop runs at least ExpectedOffspring times: it continues while
+//	    ExpectedOffspring > count (or >=), count starts at a constant <= 0 and
+//	    grows by exactly one per iteration. A champion whose reserved clones
+//	    equal the quota (delta coding, C10.7) receives its exact copy only in
+//	    iteration number ExpectedOffspring; one iteration less and it is lost.
+//	(b) ExpectedOffspring is not written while the species reproduces (same reason).
+//	(c) the organism that wraps the copy is appended to the list of babies on
+//	    every path that continues the loop or returns a list (error returns
+//	    deliver nothing and make the epoch fail, which is not a silent loss);
+//	    the list carried around the loop only grows by appends, and every
+//	    list returned is that list.
+func (r *Run) c10OffspringLoop(rep *ssa.Function, tm *Termer, newOrg *ssa.Function, copies map[string]ssa.CallInstruction) {
+	p := r.P
+	eo := p.Field(PkgG, "Species", "ExpectedOffspring")
+	isEO := func(t *Term) bool {
+		return t != nil && t.Op == "field" && t.Obj == eo && len(t.Args) == 1 && t.Args[0].Op == "recv"
+	}
+	var anchor ssa.CallInstruction
+	for _, k := range []string{"clone", "super-champ"} {
+		if copies[k] != nil && anchor == nil {
+			anchor = copies[k]
+		}
+	}
+	if anchor == nil {
+		return // C10.1 reports the missing branch
+	}
+	loops := Loops(rep)
+	// (a) the loop around the copy whose continuation test bounds a header phi by the quota
+	var loop *Loop
+	var count *ssa.Phi
+	for _, l := range loops {
+		if !l.Blocks[anchor.Block()] {
+			continue
+		}
+		// every branch of the loop that decides between staying and leaving, taken in the staying direction
+		for b := range l.Blocks {
+			iff, ok := b.Instrs[len(b.Instrs)-1].(*ssa.If)
+			if !ok || len(b.Succs) != 2 || l.Blocks[b.Succs[0]] == l.Blocks[b.Succs[1]] {
+				continue
+			}
+			for _, g := range resolveGuards([]Guard{{iff.Cond, l.Blocks[b.Succs[0]], b}}) {
+				f, ok := c10FactOf(tm, g, isEO)
+				if !ok || !isEO(f.TX) || (f.Op != token.GTR && f.Op != token.GEQ) {
+					continue
+				}
+				if ph, isPhi := f.Y.(*ssa.Phi); isPhi && ph.Block() == l.Header {
+					loop, count = l, ph
+				}
+			}
+		}
+	}
+	pos := p.Pos(rep.Pos())
+	if loop == nil {
+		r.Bad("offspring-loop", pos, "the copy of the champion is not made inside a loop that continues while ExpectedOffspring > count: the number of offspring, and with it the turn of the last reserved clone, is not tied to the quota")
+		return
+	}
+	pos = p.Pos(firstBlockPos(loop.Header))
+	okInit, okStep := true, true
+	nIn := 0
+	for i, e := range count.Edges {
+		if !loop.Blocks[count.Block().Preds[i]] {
+			if k, isK := constInt(e); !isK || k > 0 {
+				okInit = false
+			}
+			continue
+		}
+		nIn++
+		b, isB := e.(*ssa.BinOp)
+		one := func(v ssa.Value) bool { k, isK := constInt(v); return isK && k == 1 }
+		if !(isB && b.Op == token.ADD && (b.X == ssa.Value(count) && one(b.Y) || b.Y == ssa.Value(count) && one(b.X))) {
+			okStep = false
+		}
+	}
+	r.Check(okInit && okStep && nIn > 0, "offspring-loop.counter", pos, "the loop runs ExpectedOffspring times (count from 0 in steps of one)",
+		"the offspring counter does not start at 0 (or below) and advance by exactly one per iteration: the loop runs fewer than ExpectedOffspring times, so a champion whose reserved clones equal the quota never reaches its last, unmodified clone")
+	// (b)
+	var wr []string
+	for _, st := range FieldStores(rep, eo) {
+		wr = append(wr, p.Pos(st.Pos()))
+	}
+	idxs := []int{rootGlobal, rootUnknown}
+	for i := range rep.Params {
+		idxs = append(idxs, i)
+	}
+	for _, idx := range idxs {
+		ws, _ := p.writeSet(rep, idx)
+		if t, w := ws["Species.ExpectedOffspring"]; w {
+			wr = append(wr, p.Pos(t.Pos))
+		}
+	}
+	r.Check(len(wr) == 0, "offspring-loop.quota-stable", pos, "ExpectedOffspring is not written during reproduce", "ExpectedOffspring is written while the species reproduces ("+strings.Join(wr, ", ")+"): the loop can end before the champion's unmodified copy is made")
+	// (c) the list of babies
+	var babies *ssa.Phi
+	for _, ph := range HeaderPhis(loop) {
+		if strings.Contains(typeShort(ph.Type()), "[]*") && strings.Contains(typeShort(ph.Type()), "Organism") {
+			babies = ph
+		}
+	}
+	if babies == nil {
+		r.Bad("offspring-loop.babies", pos, "no list of organisms is carried around the offspring loop: the copy of the champion is not collected")
+		return
+	}
+	// isBabies: v is the list carried around the loop, possibly with further organisms appended
+	// (the babies phi itself, an append onto such a list, a join of such lists)
+	var isBabiesRec func(v ssa.Value, seen map[ssa.Value]bool, why *string) bool
+	isBabiesRec = func(v ssa.Value, seen map[ssa.Value]bool, why *string) bool {
+		if v == ssa.Value(babies) || seen[v] {
+			return true
+		}
+		seen[v] = true
+		if len(seen) > 64 {
+			*why = "data flow too deep"
+			return false
+		}
+		if ph, isPhi := v.(*ssa.Phi); isPhi {
+			for _, e := range ph.Edges {
+				if !isBabiesRec(e, seen, why) {
+					return false
+				}
+			}
+			return true
+		}
+		if base, _, isApp := appendCall(v); isApp {
+			return isBabiesRec(base, seen, why)
+		}
+		if *why == "" {
+			*why = "the list becomes " + tm.Of(v).String()
+		}
+		return false
+	}
+	isBabies := func(v ssa.Value) (bool, string) {
+		why := ""
+		ok := isBabiesRec(v, map[ssa.Value]bool{}, &why)
+		return ok, why
+	}
+	// grows only by appends
+	okGrow, why := true, ""
+	for i, e := range babies.Edges {
+		if loop.Blocks[babies.Block().Preds[i]] {
+			if ok, w := isBabies(e); !ok {
+				okGrow, why = false, w
+			}
+		}
+	}
+	r.Check(okGrow, "offspring-loop.babies-grow", pos, "the list of babies only grows by appends", "inside the offspring loop the list of babies is replaced by something that is not an append to it ("+why+"): a copy of the champion that was collected can be dropped")
+	// every list returned is the list of babies
+	for _, b := range rep.Blocks {
+		ret, isRet := b.Instrs[len(b.Instrs)-1].(*ssa.Return)
+		if !isRet || len(ret.Results) == 0 {
+			continue
+		}
+		if k, isK := ret.Results[0].(*ssa.Const); isK && k.Value == nil {
+			continue // return nil, err
+		}
+		okRet, w := isBabies(ret.Results[0])
+		r.Check(okRet, "offspring-loop.returns-babies", p.Pos(ret.Pos()), "the list returned is the list of babies", "reproduce returns a list that is not the list the offspring were appended to ("+w+"): the copy of the champion is not handed to the caller")
+	}
+	// the copy is appended on every continuing path
+	for _, k := range []string{"clone", "super-champ"} {
+		c := copies[k]
+		if c == nil {
+			continue
+		}
+		var genome ssa.Value
+		for _, ref := range *c.Value().Referrers() {
+			if ex, ok := ref.(*ssa.Extract); ok && ex.Index == 0 {
+				genome = ex
+			}
+		}
+		if genome == nil {
+			continue // C10.2 reports it
+		}
+		calls, _ := genomeUsers(genome)
+		for _, u := range calls {
+			if u.Common().StaticCallee() != newOrg || u.Value() == nil {
+				continue
+			}
+			var org ssa.Value
+			for _, ref := range *u.Value().Referrers() {
+				if ex, ok := ref.(*ssa.Extract); ok && ex.Index == 0 {
+					org = ex
+				}
+			}
+			if org == nil {
+				org = u.Value()
+			}
+			isDeliver := func(in ssa.Instruction) bool {
+				v, isV := in.(ssa.Value)
+				if !isV {
+					return false
+				}
+				base, elems, isApp := appendCall(v)
+				if !isApp {
+					return false
+				}
+				if ok, _ := isBabies(base); !ok {
+					return false
+				}
+				for _, e := range elems {
+					if e == org {
+						return true
+					}
+					for _, f := range phiWeb(e).Feeders {
+						if f == org {
+							return true
+						}
+					}
+				}
+				return false
+			}
+			path := FindPath(p, PathQuery{Fn: rep, StartAfter: u.(ssa.Instruction),
+				Target: func(in ssa.Instruction) bool {
+					if in.Block() == loop.Header {
+						return true
+					}
+					if ret, isRet := in.(*ssa.Return); isRet && len(ret.Results) > 0 {
+						if k, isK := ret.Results[0].(*ssa.Const); !isK || k.Value != nil {
+							return true
+						}
+					}
+					return false
+				},
+				Avoid: isDeliver, Explored: &r.PathsExplored})
+			r.Check(path == nil, k+".delivered", p.Pos(u.Pos()), "the organism wrapping the copy is appended to the babies on every path that continues",
+				"the organism that wraps the champion's copy can reach the next iteration (or a successful return) without having been appended to the list of babies: the unmodified copy is not part of the next generation", path...)
+		}
+	}
 }
